@@ -235,5 +235,9 @@ def const_rules(rng, horizon, random_units=True):
         v = rng.choice([0, 1, -1, dy(rng, -1, 1, 3)])
         rules.append({'type': 'const', 'start': time_qty(rng, 'Time', s, random_units) if s > 0 else [0.0, 'sec'],
                       'dur': time_qty(rng, 'TimeInterval', d, random_units), 'value': v})
+        if rng.random() < 0.2:
+            # the user re-expresses the timer's start or duration object in place after the rule has been built
+            key = rng.choice(['start', 'dur'])
+            rules[-1]['late'] = {key: rng.choice([u for u in ('sec', 'ms', 'min', 'hour') if u != rules[-1][key][1]])}
         t = s + d + 0.0625
     return rules
